@@ -228,6 +228,34 @@ Example ex_C08_cycle_inhabited :
 Proof. vm_compute. repeat split; reflexivity. Qed.
 Print Assumptions ex_C08_cycle_inhabited.
 
+(** Finding F1, machine-checked on the model (which the C08 tie compares with the Rust library):
+    the grammar  cmd p(<A> <B>); <A> ::= a; <B> ::= b;  has two space-separated literals inside a
+    word through definitions ([subword_spaces] holds, no earlier class is present) and is
+    accepted for every shell; the same mistake written directly, or one definition deeper, is
+    rejected. *)
+Definition ex_f1_word (inner : expr) : expr :=
+  Subword (Sequence [Terminal "p" None 0 ex_sp; inner] ex_sp) 0 ex_sp.
+Definition ex_f1 : grammar :=
+  [ CallVariant "cmd" ex_sp (ex_f1_word (Sequence [NontermRef "A" 0 ex_sp; NontermRef "B" 0 ex_sp] ex_sp));
+    NontermDef "A" ex_sp None (Terminal "a" None 0 ex_sp);
+    NontermDef "B" ex_sp None (Terminal "b" None 0 ex_sp) ].
+Definition ex_f1_direct : grammar :=
+  [ CallVariant "cmd" ex_sp (ex_f1_word (Sequence [Terminal "a" None 0 ex_sp; Terminal "b" None 0 ex_sp] ex_sp)) ].
+Definition ex_f1_deeper : grammar :=
+  [ CallVariant "cmd" ex_sp (ex_f1_word (NontermRef "C" 0 ex_sp));
+    NontermDef "C" ex_sp None (Sequence [NontermRef "A" 0 ex_sp; NontermRef "B" 0 ex_sp] ex_sp);
+    NontermDef "A" ex_sp None (Terminal "a" None 0 ex_sp);
+    NontermDef "B" ex_sp None (Terminal "b" None 0 ex_sp) ].
+Example ex_C08_F1_subword_spaces_missed :
+  present (fun _ => []) ex_f1 Bash = [MSubwordSpaces]
+  /\ forallb (fun sh => is_ok (from_grammar (fun _ => []) ex_f1 sh)) [Bash; Fish; Zsh; Pwsh] = true
+  /\ present (fun _ => []) ex_f1_direct Bash = [MSubwordSpaces]
+  /\ is_ok (from_grammar (fun _ => []) ex_f1_direct Bash) = false
+  /\ present (fun _ => []) ex_f1_deeper Bash = [MSubwordSpaces]
+  /\ is_ok (from_grammar (fun _ => []) ex_f1_deeper Bash) = false.
+Proof. vm_compute. repeat split; reflexivity. Qed.
+Print Assumptions ex_C08_F1_subword_spaces_missed.
+
 Example ex_C08_inhabited :
   no_call_variant ex_dup = false /\ varying_names ex_dup = false /\ slash_in_name ex_dup = false
   /\ duplicate_plain ex_dup = true
